@@ -319,8 +319,12 @@ impl CodeFormatter {
                                 .fmt(else_.as_ref().unwrap());
                         }
                         BracePosition::NewLine => {
-                            self.push("\n")
-                                .fmt(tag_else.as_ref())
+                            // 'else' starts a new line, unless its own trivia already ended the previous one
+                            if let Some(t) = tag_else.trivia.as_ref() {
+                                self.fmt(&t.data);
+                            }
+                            self.newline_unless_present()
+                                .push(&tag_else.data)
                                 .fmt(else_.as_ref().unwrap());
                         }
                     }
@@ -474,18 +478,15 @@ impl CodeFormatter {
     fn format_block(&mut self, block: &Block, format_lparen_trivia: bool) {
         // Comments between the block's header and its opening brace are kept (a line comment ends its line, so the
         // brace then has to start a new one). Newlines in that gap are not: the brace position is an option.
-        let mut on_new_line = false;
         if format_lparen_trivia {
             if let Some(trivia) = block.lparen.trivia.as_ref() {
                 for triv in &trivia.data {
                     match triv {
                         Trivia::CStyle(comment) => {
                             self.push_type(ChunkType::Comment, comment);
-                            on_new_line = false;
                         }
                         Trivia::CppStyle(comment) => {
                             self.push_type(ChunkType::Comment, comment).push("\n");
-                            on_new_line = true;
                         }
                         Trivia::Whitespace(_) | Trivia::NewLine => (),
                     }
@@ -495,12 +496,10 @@ impl CodeFormatter {
 
         match self.options.braces.position {
             BracePosition::SameLine => self.push(&block.lparen.data).push("\n"),
-            BracePosition::NewLine => {
-                if !on_new_line {
-                    self.push("\n");
-                }
-                self.push(&block.lparen.data).push("\n")
-            }
+            BracePosition::NewLine => self
+                .newline_unless_present()
+                .push(&block.lparen.data)
+                .push("\n"),
         };
 
         // Since we want to deal with tokens and the trivia _after_ the token,
@@ -580,6 +579,15 @@ impl CodeFormatter {
 
     fn fmt<F: Formattable>(&mut self, f: F) -> &mut Self {
         f.format(self);
+        self
+    }
+
+    /// Starts a new line, unless the chunks pushed so far already end with a line break. In 'new-line' brace mode the
+    /// source text of an already formatted file has that line break in the trivia in front of '{' and 'else'.
+    fn newline_unless_present(&mut self) -> &mut Self {
+        if self.chunks.last().map(|c| c.str != "\n").unwrap_or(true) {
+            self.push("\n");
+        }
         self
     }
 
